@@ -18,8 +18,15 @@ class _Counter(logging.Handler):
     def __init__(self):
         super().__init__(level=logging.WARNING)
         self.n = 0
+        self.unrenderable = 0
 
     def emit(self, record):
+        # a record only counts as a report if it can be rendered (what every real handler has to do)
+        try:
+            record.getMessage()
+        except Exception:  # noqa: BLE001
+            self.unrenderable += 1
+            return
         self.n += 1
 
 
